@@ -3,7 +3,8 @@
 // next_ready() the following calls simply continue further up the stream -- an all_values
 // subscriber observes a gap and never an end-of-stream.  In the skipping modes a polled end of a
 // closed stream leaves _pos past the end (publisher.h:234 tests `== _pos` only) and the next
-// next() hands out an old value again.  Returns non-zero when observed.
+// next() hands out an old value again -- or, with nothing published, indexes the empty deque (crash).
+// Returns non-zero (or dies) when observed.
 #include <cocls/publisher.h>
 #include <cstdio>
 int main() {
@@ -27,8 +28,18 @@ int main() {
         pub.close();
         bool b = sub.next_ready();                 // false (end of stream, not reportable)
         bool c = sub.next();                       // expected false; delivers 2 again
-        printf("skip_to_recent: %d %d %d value=%d\n", a, b, c, sub.value());
+        printf("skip_to_recent: %d %d %d value=%d\n", a, b, c, c ? sub.value() : -1);
         bad |= c << 1;
+    }
+    fflush(stdout);
+    {   // nothing published, closed: the second poll reads _q[size()-1] of an empty deque (SIGSEGV)
+        cocls::publisher<int> pub;
+        pub.close();
+        cocls::subscriber<int> sub(pub, cocls::subscribtion_type::skip_if_behind);
+        bool a = sub.next_ready();                 // false
+        bool b = sub.next_ready();                 // expected false; crashes / garbage
+        printf("skip_if_behind on an empty closed stream: %d %d\n", a, b);
+        bad |= b << 2;
     }
     return bad;
 }
